@@ -21,6 +21,9 @@ DRIVERS = [  # (name, harness args, trace module, kind)
     ("blake", ["digests", "--family", "blake"], "TraceBlake", "stateless"),
     ("jh", ["digests", "--family", "jh"], "TraceJH", "stateless"),
     ("simd", ["simd"], "TraceSimd", "stateless"),
+    # digests of very long messages (length counter fast-forwarded through hook H2, then crossed by real data)
+    ("blake-long", ["c17", "--family", "blake"], "TraceCtrBlake", "stateless"),
+    ("jh-long", ["c17", "--family", "jh"], "TraceCtrJH", "stateless"),
 ]
 IGNORE = ("cfg", "k", "mach", "tag")
 
@@ -89,7 +92,7 @@ def cross_validate(c, cfgs, drivers, label="C03"):
                     if f in e and e[f]:
                         e[f][0] ^= 2
                         return
-                for f in ("y", "z"):          # threefish events: ciphertext (enc mode) and decrypted block (inverse mode)
+                for f in ("y", "z", "ys", "zs"):          # threefish events: ciphertext (enc mode) and decrypted block (inverse mode)
                     if f in e and e[f]:
                         e[f][0] ^= 2
             vlib.validate_stateless(c, module, recs, lambda e: {"driver": dname, "cfg": e.get("cfg"), "res": e.get("res", "").split(":")[0],
